@@ -29,12 +29,27 @@ func encList(xs []string) string {
 
 // dumpModel prints the assertions the way Driver/Config.lean does.
 func dumpModel(text string) (obs string, m model.Model) {
+	return dumpModelVia(text, false)
+}
+
+// dumpModelVia: the same through either entry point: the text itself, or a file holding it
+func dumpModelVia(text string, file bool) (obs string, m model.Model) {
 	defer func() {
 		if r := recover(); r != nil {
 			obs = "panic"
 		}
 	}()
-	m, err := model.NewModelFromString(text)
+	var err error
+	if file {
+		path := scratchFile() + ".c08.conf"
+		if werr := os.WriteFile(path, []byte(text), 0o644); werr != nil {
+			panic(werr)
+		}
+		m, err = model.NewModelFromFile(path)
+		_ = os.Remove(path)
+	} else {
+		m, err = model.NewModelFromString(text)
+	}
 	if err != nil {
 		return "err", nil
 	}
@@ -231,7 +246,7 @@ func requestUniverse(csvPath string) [][]interface{} {
 }
 
 func runC08(c *Ctx) {
-	c.Rule = "every examples/*.conf plus generated model texts x the layout transformations (CRLF, padding every line, padding one line past 4 KiB on either side, the last line padded to exactly 4096/8192 bytes without a final newline, tabs around '=' and ',' inside r/p definitions, blank/#/; lines at every position outside a continuation, an inline comment after every definition introduced by either marker and containing the other, an inline comment before the backslash of a continued line, a comment line longer than the buffer above a line longer than the buffer, backslash continuation split at every single blank of every definition line incl. past 4 KiB, reversed and rotated section order): the assertions (Key, Value, Tokens, ParamsTokens of r/p/g/e/m) of the real NewModelFromString are compared with the Lean mirror, and every variant with its original (same definitions) and on the example's policy with the original's decisions; arbitrary text (mutated examples, random bytes) for totality; non-trivial = a variant that differs textually from its original and loads; distinct = variant text"
+	c.Rule = "every examples/*.conf plus generated model texts x the layout transformations (CRLF, padding every line, padding one line past 4 KiB on either side, the last line padded to exactly 4096/8192 bytes without a final newline, tabs around '=' and ',' inside r/p definitions, blank/#/; lines at every position outside a continuation, an inline comment after every definition introduced by either marker and containing the other, an inline comment before the backslash of a continued line, a comment line longer than the buffer above a line longer than the buffer, backslash continuation split at every single blank of every definition line incl. past 4 KiB, reversed and rotated section order): the assertions (Key, Value, Tokens, ParamsTokens of r/p/g/e/m) of the real NewModelFromString are compared with the Lean mirror (and NewModelFromFile on a file holding the same text must give the same outcome), and every variant with its original (same definitions) and on the example's policy with the original's decisions; arbitrary text (mutated examples, random bytes) for totality; non-trivial = a variant that differs textually from its original and loads; distinct = variant text"
 	files, _ := filepath.Glob("/repo/examples/*.conf")
 	sort.Strings(files)
 	texts := map[string]string{}
@@ -298,6 +313,11 @@ func runC08(c *Ctx) {
 			obs, vm := dumpModel(v)
 			c.W.Op("cfg "+proto.Enc(v), obs)
 			c.Evals++
+			// the same text through the file entry point: same outcome (definitions, or an error)
+			if fobs, _ := dumpModelVia(v, true); fobs != obs {
+				c.Direct("the file entry point reads a model text differently from the text entry point", fmt.Sprintf("file=%s variant=%s\nNewModelFromString: %s\nNewModelFromFile:   %s", name, k, obs, fobs))
+			}
+			c.Count("file_entry_point_checks", 1)
 			c.Count("variant="+strings.SplitN(k, "@", 2)[0], 1)
 			if obs == "panic" {
 				c.Direct("parsing a model text panics", fmt.Sprintf("file=%s variant=%s", name, k))
@@ -372,6 +392,13 @@ func runC08(c *Ctx) {
 		c.Evals++
 		if obs == "panic" {
 			c.Direct("parsing a model text panics", t)
+		}
+		// every fourth text also through the file entry point: a text one entry point rejects the other rejects too
+		if i%4 == 0 {
+			if fobs, _ := dumpModelVia(t, true); fobs != obs {
+				c.Direct("the file entry point reads a model text differently from the text entry point", fmt.Sprintf("text=%q\nNewModelFromString: %s\nNewModelFromFile:   %s", t, obs, fobs))
+			}
+			c.Count("file_entry_point_checks", 1)
 		}
 		if obs == "err" {
 			c.Count("malformed=err", 1)
